@@ -320,7 +320,8 @@ def run_all(rep, ctx, cases):
 
 
 def check(rep):
-    ctx = vlib.prepare(rep, harnesses=('pure',), sanitize=(rep.tier == 'thorough'))
+    import c17
+    ctx = vlib.prepare(rep, harnesses={'pure': vlib.pure_harness('C18'), 'srvmain': c17.SRVMAIN}, sanitize=(rep.tier == 'thorough'))
     cases, stats = gen_cases(rep.seed, rep.tier)
     rep.cov['rule'] = ('corpus first; init_users: every netmask 8..30 x 8 base addresses x boundary host positions (0..20, around '
                        'usercount, first/last host, network and broadcast position, 255/256/257, 65535..65537) + random positions, '
@@ -337,9 +338,62 @@ def check(rep):
     rep.cov['exhaustive'] = False
     rep.cov['exhaustive_part'] = ('host positions of %s; everything else sampled' % stats['exhaustive_netmasks'])
     run_all(rep, ctx, cases)
+    startup_stage(rep, ctx)
     if not rep.violations:
         ctx.report_broken()
     return rep
+
+
+def startup_stage(rep, ctx):
+    """the netmask range check lives in main() of iodined.c: the real main() on a scripted command line (harness/h_mainargs.inc,
+    run up to open_tun) accepts a tunnel address a.b.c.d/N exactly for N in 8..30 and then creates min(16, 2^(32-N) - 3)
+    sessions; the same verdict and count as the model (Users.netmask_accepted, Users.init_users)"""
+    if 'srvmain' not in ctx.exe:
+        return
+    import c17
+    rng = vlib.rng_for(rep.seed, 'c18-main')
+    args = []
+    for base in ('10.0.0.1', '192.168.99.77', '172.16.0.200', '10.255.255.254'):
+        for nb in list(range(-2, 41)) + [64, 255, 256, 65544]:
+            args.append((base, '%s/%d' % (base, nb), nb))
+    args += [('10.0.0.1', '10.0.0.1', 27), ('10.0.0.1', '10.0.0.1/', 0), ('10.0.0.1', '10.0.0.1/x', 0), ('10.0.0.1', '10.0.0.1/27x', 27),
+             ('10.0.0.1', '10.0.0.1/ 9', 9), ('10.0.0.1', '10.0.0.1/030', 30), ('10.0.0.1', '10.0.0.1/+8', 8)]
+    lines = [c17.aline([b'-f', b'-P', b'pw', b'--', a.encode(), b't.example.com']) for _, a, _ in args]
+    rc, out, err = vlib.parallel_run_cases(ctx.exe['srvmain'], lines, ctx.work, 'srvmain')
+    if rc != 0:
+        ctx.broken.append(('impl-crash', 'main() harness exited with %d: %s' % (rc, err[-300:])))
+    mod = None
+    if ctx.model:
+        ml = ['I %d %d' % (int.from_bytes(bytes(int(x) for x in b.split('.')), 'little'), max(nb, 0)) for b, _, nb in args]
+        rc2, mod, err2 = vlib.parallel_run_cases(ctx.model, ml, ctx.work, 'model-main')
+    acc = 0
+    for i, ((b, a, nb), l, o) in enumerate(zip(args, lines, out)):
+        got = o.startswith('ACCEPT')
+        exp = 8 <= nb <= 30
+        acc += got
+        users = None
+        if got:
+            f = dict(x.split('=', 1) for x in o.split(' ') if '=' in x)
+            users = int(f.get('users', -1))
+        if got != exp:
+            rep.add_violation('startup:netmask-%s' % ('accepted' if got else 'refused'), 'main() of iodined %s the tunnel address %s (netmask %d); '
+                              'the property is about netmasks /8../30, which must be usable, and no other is' % ('accepts' if got else 'refuses', a, nb),
+                              dict(kind='input', driver='iodined-main', case=l, observed=o, expected='ACCEPT' if exp else 'REJECT'))
+            break
+        if got and users != min(16, (1 << (32 - nb)) - 3):
+            rep.add_violation('startup:sessions:count', 'main() of iodined with %s creates %s sessions, min(16, subnet size - 3) = %d' % (
+                a, users, min(16, (1 << (32 - nb)) - 3)), dict(kind='input', driver='iodined-main', case=l, observed=o))
+            break
+        if mod is not None and nb >= 0:
+            mref = mod[i] == 'REFUSED'
+            if mref == got or (got and int(mod[i].split(' ')[0]) != users):
+                ctx.broken.append(('correspondence', 'startup stage: main() of iodined on %s: %r, the model (netmask_accepted / init_users): %r' % (
+                    a, o, mod[i][:60])))
+                break
+    rep.cov['startup'] = dict(command_lines=len(lines), accepted=acc)
+    rep.cov['evaluations'] = rep.cov.get('evaluations', 0) + len(lines)
+    rep.cov['rule'] += ('. Startup stage: %d command lines a.b.c.d/N (N = -2..40 and beyond, malformed suffixes) through the real main() of '
+                        'iodined.c up to open_tun: accepted iff 8 <= N <= 30, sessions created = min(16, 2^(32-N) - 3), same as the model' % len(lines))
 
 
 def replay(rp):
